@@ -98,6 +98,34 @@ def fromElemsMap (body : TfVal → List Diag → List HookCall → Outcome (Opti
     | .panic w => .panic w
     | .stuck w => .stuck w
 
+/-- body of the element loop of a list (`vf` = the field) or a map (`vf` = the map value field):
+`v, ok := a.(ElemValueType)`, conversion diagnostic when the assertion fails, else the element is decoded
+(scalars: `genPrimitiveBody` of the field; messages: a fresh struct filled by the nested message's field blocks) -/
+def fromElemBody (rec : FromRec) (overrides : List (String × String)) (info vf : FieldInfo) :
+    TfVal → List Diag → List HookCall → Outcome (Option GoVal × List Diag × List HookCall) :=
+  fun e diags hooks =>
+    if e.vkind != vkindOf vf.tf.elemValueType || e.vkind == .unknown then
+      .ok (none, diags ++ [.readConv info.path (withType overrides vf.tf.elemValueType)], hooks)
+    else
+      match e with
+      | .prim k u nl p =>
+        if info.kind == .primitiveList || info.kind == .primitiveMap then
+          match primDecode info k u nl p with
+          | .ok t => .ok (some t, diags, hooks)
+          | .panic w => .panic w
+          | .stuck w => .stuck w
+        else .stuck "element kind"
+      | .obj u nl attrs _ =>
+        if info.kind == .objectList || info.kind == .objectMap then
+          if known u nl then
+            match rec attrs { obj := .struct [], diags := diags, hooks := hooks } with
+            | .ok st' => .ok (some (if info.isNullable then .ptr (some st'.obj) else st'.obj), st'.diags, st'.hooks)
+            | .panic w => .panic w
+            | .stuck w => .stuck w
+          else .ok (some (zeroMsg info), diags, hooks)
+        else .stuck "element kind"
+      | _ => .stuck "element kind"
+
 /-- one field block of CopyFrom, given the recursive call for the nested message.
 `overrides` are the import path overrides (they appear in the type string of element conversion diagnostics). -/
 def copyFromFieldWith (rec : FromRec) (overrides : List (String × String)) (info : FieldInfo) (mapVal : Option FieldInfo)
@@ -199,25 +227,7 @@ def copyFromFieldWith (rec : FromRec) (overrides : List (String × String)) (inf
       | .stuck w => .stuck w
       | .ok o =>
         if known unk null then
-          let body : TfVal → List Diag → List HookCall → Outcome (Option GoVal × List Diag × List HookCall) :=
-            fun e diags hooks =>
-              if e.vkind != vkindOf vf.tf.elemValueType || e.vkind == .unknown then
-                .ok (none, diags ++ [.readConv info.path (withType overrides vf.tf.elemValueType)], hooks)
-              else
-                match info.kind, e with
-                | .primitiveList, .prim k u nl p =>
-                  match primDecode vf k u nl p with
-                  | .ok t => .ok (some t, diags, hooks)
-                  | .panic w => .panic w
-                  | .stuck w => .stuck w
-                | .objectList, .obj u nl attrs _ =>
-                  if known u nl then
-                    match rec attrs { obj := .struct [], diags := diags, hooks := hooks } with
-                    | .ok st' => .ok (some (if info.isNullable then .ptr (some st'.obj) else st'.obj), st'.diags, st'.hooks)
-                    | .panic w => .panic w
-                    | .stuck w => .stuck w
-                  else .ok (some (zeroElem vf), diags, hooks)
-                | _, _ => .stuck "element kind"
+          let body := fromElemBody rec overrides info vf
           match fromElemsList body (elems.getD []) 0 (List.replicate n (zeroElem vf)) st.diags st.hooks with
           | .panic w => .panic w
           | .stuck w => .stuck w
@@ -234,26 +244,7 @@ def copyFromFieldWith (rec : FromRec) (overrides : List (String × String)) (inf
       | .stuck w => .stuck w
       | .ok o =>
         if known unk null then
-          let body : TfVal → List Diag → List HookCall → Outcome (Option GoVal × List Diag × List HookCall) :=
-            fun e diags hooks =>
-              if e.vkind != vkindOf vf.tf.elemValueType || e.vkind == .unknown then
-                .ok (none, diags ++ [.readConv info.path (withType overrides vf.tf.elemValueType)], hooks)
-              else
-                match info.kind, e with
-                | .primitiveMap, .prim k u nl p =>
-                  -- genPrimitiveBody of the *map* field: GoElemType / IsNullable / cast of the map field
-                  match primDecode info k u nl p with
-                  | .ok t => .ok (some t, diags, hooks)
-                  | .panic w => .panic w
-                  | .stuck w => .stuck w
-                | .objectMap, .obj u nl attrs _ =>
-                  if known u nl then
-                    match rec attrs { obj := .struct [], diags := diags, hooks := hooks } with
-                    | .ok st' => .ok (some (if info.isNullable then .ptr (some st'.obj) else st'.obj), st'.diags, st'.hooks)
-                    | .panic w => .panic w
-                    | .stuck w => .stuck w
-                  else .ok (some (zeroMsg info), diags, hooks)
-                | _, _ => .stuck "element kind"
+          let body := fromElemBody rec overrides info vf
           match fromElemsMap body (elems.getD []) [] st.diags st.hooks with
           | .panic w => .panic w
           | .stuck w => .stuck w
